@@ -22,6 +22,7 @@ type skipConcEngine struct {
 	bufs      []*skiplist.ActionBuffer
 	iters     []map[string]*skiplist.Iterator
 	valid     []map[string]bool
+	base      int  // live blocks right after the list was made (sentinels)
 	injecting bool // an injected operation is running (no steering)
 	inj       *injection
 	freeing   bool             // mem=mmfree
@@ -314,6 +315,7 @@ func (e *skipConcEngine) step(toks []string) string {
 				}
 			}
 			e.s = skiplist.NewWithConfig(cfg)
+			e.base = e.alloc.Live()
 		}
 		e.ctl = sched.NewController()
 		sp := uintptr(unsafe.Pointer(e.s))
@@ -395,7 +397,26 @@ func (e *skipConcEngine) step(toks []string) string {
 		}
 		return walkLevels(s, true)
 	case "stats":
-		line := statsLine(s)
+		idle := true
+		for i := 0; i < e.ctl.NumThreads(); i++ {
+			if e.ctl.Thread(i).Running {
+				idle = false
+			}
+		}
+		line := statsLine(s, idle)
+		if e.alloc != nil && idle {
+			// the allocator's books: at quiescence the live blocks are the sentinels plus one block per node that
+			// was allocated and not freed (and its item, when items live in user-managed memory too); a block that
+			// is neither linked nor counted is a leak, appended to the line, which then never matches the model
+			_, _, allocs, frees, _ := s.VerifRawStats()
+			per := int64(1)
+			if e.freeing {
+				per = 2
+			}
+			if got, want := int64(e.alloc.Live()-e.base), (allocs-frees)*per; got != want {
+				line += fmt.Sprintf(" blocks=%d/expected=%d", got, want)
+			}
+		}
 		if e.freeing {
 			// the model does not free: report the frees beyond those the harness itself caused through `delf`
 			if m := freesRe.FindStringSubmatch(line); m != nil {
